@@ -19,25 +19,27 @@ Lemma start_race : all_enabled (init true) w_start = true /\
   brk_run (out (run (init true) w_start)) = None.
 Proof. vm_compute. repeat split. Qed.
 
-(* application in a non-default AppSession: the callback runs in the flush
-   thread's (empty) context, in_terminal() sees no application *)
+(* application in a non-default AppSession (repaired by acce0d8: the callback
+   runs in a copy of the proxy creator's context): bracketed like in the
+   default session *)
 Definition w_ctx : list label := LW 0 ta :: batch ++ [LLoopStep].
 
-Lemma ctx_unbracketed : forallb no_lifecycle w_ctx = true /\
+Lemma ctx_bracketed : forallb no_lifecycle w_ctx = true /\
   all_enabled (init_running false) w_ctx = true /\
-  forallb ev_ok (out (run (init_running false) w_ctx)) = false /\
-  brk_run (out (run (init_running false) w_ctx)) = None.
+  forallb ev_ok (out (run (init_running false) w_ctx)) = true /\
+  brk_run (out (run (init_running false) w_ctx)) = Some false /\
+  out_text (run (init_running false) w_ctx) = ta.
 Proof. vm_compute. repeat split. Qed.
 
-(* exit while somebody else's in_terminal section is open: the earlier text
-   waits on the chain, the later one sees _is_running = False and is written
-   at once *)
+(* exit while somebody else's in_terminal section is open (repaired by
+   e58361b: in_terminal chains while an earlier section is pending, run_async
+   waits until the chain is empty): the later text no longer overtakes *)
 Definition w_exit : list label :=
   [LAppStart; LExtBegin; LW 0 ta] ++ batch ++ [LLoopStep; LAppExit; LW 0 tb] ++ batch ++
-  [LLoopStep; LExtEnd; LWake 0; LAppStop].
+  [LLoopStep; LExtEnd; LWake 0; LWake 0; LAppStop].
 
-Lemma exit_reorder : all_enabled (init true) w_exit = true /\
-  stream w_exit = ta ++ tb /\ out_text (run (init true) w_exit) = tb ++ ta /\
+Lemma exit_in_order : all_enabled (init true) w_exit = true /\
+  stream w_exit = ta ++ tb /\ out_text (run (init true) w_exit) = ta ++ tb /\
   lost (run (init true) w_exit) = [] /\
   pipeline (run (init true) w_exit) = out_text (run (init true) w_exit).
 Proof. vm_compute. repeat split. Qed.
@@ -57,48 +59,17 @@ Lemma stop_race : all_enabled (init true) w_stop = true /\
 Proof. vm_compute. repeat split. Qed.
 
 (* same race, loop already closed when the flush thread calls
-   call_soon_threadsafe: RuntimeError kills the flush thread; everything
-   written afterwards stays in the queue *)
+   call_soon_threadsafe (repaired by aa2fd63: RuntimeError is caught, the text
+   is written directly): the flush thread lives on and delivers everything *)
 Definition w_crash : list label :=
   [LAppStart; LW 0 ta; LFGet; LFNowait; LFChoose; LAppExit; LAppStop; LLoopClose; LFDeliver;
-   LW 0 tb; LFlush 0; LClose].
+   LW 0 tb; LFlush 0; LClose; LFGet; LFNowait; LFNowait; LFNowait; LFChoose; LFDeliver].
 
-Lemma stop_crash : all_enabled (init true) w_crash = true /\
-  fth (px (run (init true) w_crash)) = FCrash /\
-  out_text (run (init true) w_crash) = [] /\
-  queue (px (run (init true) w_crash)) = [ITxt tb; ITxt []; IDone].
+Lemma closed_loop_ok : all_enabled (init true) w_crash = true /\
+  fth (px (run (init true) w_crash)) = FExit /\
+  out_text (run (init true) w_crash) = ta ++ tb /\ lost (run (init true) w_crash) = [] /\
+  drained (run (init true) w_crash).
 Proof. vm_compute. repeat split. Qed.
-
-(* a dead flush thread never takes anything from the queue again *)
-Lemma crash_absorbing : forall l s, fth (px s) = FCrash ->
-  fth (px (step s l)) = FCrash /\ exists q, queue (px (step s l)) = queue (px s) ++ q.
-Proof.
-  intros l s F. destruct l; cbn [step px].
-  - unfold do_write. destruct (split_last d) as [[b a]|]; cbn [fth queue]; (split; [exact F|]).
-    + eexists; reflexivity.
-    + exists []. now rewrite app_nil_r.
-  - cbn [do_flush fth queue]. split; [exact F|eexists; reflexivity].
-  - cbn [do_close fth queue]. split; [exact F|eexists; reflexivity].
-  - unfold do_fget. rewrite F. split; [exact F|exists []; now rewrite app_nil_r].
-  - unfold do_fnowait. rewrite F. split; [exact F|exists []; now rewrite app_nil_r].
-  - unfold do_fchoose. rewrite F. split; [exact F|exists []; now rewrite app_nil_r].
-  - rewrite F. split; [exact F|exists []; now rewrite app_nil_r].
-  - destruct (negb (app (en s)) && negb (running (en s))); (split; [exact F|exists []; now rewrite app_nil_r]).
-  - destruct (app (en s) && running (en s)); (split; [exact F|exists []; now rewrite app_nil_r]).
-  - destruct (app (en s) && negb (running (en s)) && fdone (ch s) (lastf (ch s))); (split; [exact F|exists []; now rewrite app_nil_r]).
-  - destruct (negb (app (en s)) && negb (lclosed (en s))); (split; [exact F|exists []; now rewrite app_nil_r]).
-  - destruct (lclosed (en s)); [split; [exact F|exists []; now rewrite app_nil_r]|].
-    destruct (loopq (en s)); [split; [exact F|exists []; now rewrite app_nil_r]|].
-    destruct (app (en s) && ctx (en s) && running (en s)); [destruct (submit _ _ _ _)|];
-      (split; [exact F|exists []; now rewrite app_nil_r]).
-  - destruct (app (en s) && running (en s) && _); (split; [exact F|exists []; now rewrite app_nil_r]).
-  - destruct (app (en s) && running (en s)); [destruct (submit _ _ _ _)|];
-      (split; [exact F|exists []; now rewrite app_nil_r]).
-  - destruct (active (ch s)); (split; [exact F|exists []; now rewrite app_nil_r]).
-  - destruct (nth_error (waitq (ch s)) i); [|split; [exact F|exists []; now rewrite app_nil_r]].
-    destruct (fdone (ch s) (s_prev s0)); [destruct (start_sec _ _ _ _)|];
-      (split; [exact F|exists []; now rewrite app_nil_r]).
-Qed.
 
 (* the hypotheses of the positive theorems are satisfiable: a complete run
    (two threads, partial lines, flush, close) that ends drained *)
